@@ -1927,14 +1927,111 @@ Definition dup_lines : list rawrec :=
     mkraw (Ok 1) (Ok 2) (Err InvalidArgument) (Err InvalidArgument)
           [Ok (1 # 2, 19 # 2)%Q; Ok (1 # 2, 15 # 2)%Q; Ok (9 # 2, 15 # 2)%Q; Ok (9 # 2, 19 # 2)%Q] ].
 
+Definition dup_net : network :=
+  Eval vm_compute in
+    match load zero_cost_grid [L_other; L_other; L_other] dup_lines false with Ok n => n | Err _ => zero_cost_net end.
+
+Definition dup_second : segment :=
+  Eval vm_compute in
+    match record_segment zero_cost_grid false false (nth 1 dup_lines (mkraw (Ok 0) (Ok 0) (Ok 0%Q) (Ok 0%Q) [])) with
+    | Ok (Some ks) => snd ks
+    | _ => mkseg [] 0 0 0
+    end.
+
 Lemma parallel_edge_dropped : exists g lines net k s,
-  load g [] lines false = Ok net /\
+  load g [L_other; L_other; L_other] lines false = Ok net /\
   (exists r, In r lines /\ record_segment g false false r = Ok (Some (k, s))) /\
   ~ In (k, s) (nw_segs net).
 Proof.
-  exists zero_cost_grid, dup_lines.
-  eexists. exists (1, 2). eexists.
+  exists zero_cost_grid, dup_lines, dup_net, (1, 2), dup_second.
   split; [vm_compute; reflexivity|]. split.
-  - eexists. split; [right; left; reflexivity | vm_compute; reflexivity].
-  - vm_compute. intros [H | []]. inversion H.
+  - exists (nth 1 dup_lines (mkraw (Ok 0) (Ok 0) (Ok 0%Q) (Ok 0%Q) [])).
+    split; [right; left; reflexivity | vm_compute; reflexivity].
+  - intro H. vm_compute in H. destruct H as [H | H]; [discriminate H | exact H].
+Qed.
+
+(* ----------------------------------------------- statements at walk level *)
+
+Lemma walk_tr_path : forall net fuel start d jump tp r,
+  walk_tr net fuel start d jump tp = Ok r ->
+  (exists n0 t, In n0 (nodes_at net start) /\ w_path r = n0 :: t) /\
+  chain net (w_path r) (w_views r) /\ fresh_pref net [] (w_path r).
+Proof.
+  intros net fuel start d jump tp r. unfold walk_tr.
+  destruct (random_node_at net start tp) as [[n0 tp']|e] eqn:Er; [|discriminate].
+  intro H. destruct (walk_loop_path _ _ _ _ _ _ _ _ _ H) as [[t Ht] [Hc Hf]].
+  split; [|split; assumption].
+  exists n0, t. split; [|exact Ht].
+  unfold random_node_at in Er. destruct (nodes_at net start) as [|x l] eqn:En; [discriminate|].
+  eapply choose_In; [|exact Er]. discriminate.
+Qed.
+
+Lemma walk_tr_accounting : forall net fuel start d jump tp r,
+  walk_tr net fuel start d jump tp = Ok r ->
+  if w_on_segment r then
+    exists pre last rem, w_views r = pre ++ [last] /\
+      (forall i v, nth_error pre i = Some v -> (v_cost v < d - sum_costs (firstn i pre))%Q) /\
+      (rem == d - sum_costs pre)%Q /\ (0 <= rem)%Q /\ (rem <= v_cost last)%Q /\
+      stop_cell last rem jump = Ok (w_cell r)
+  else
+    w_cell r = start /\
+    (forall i v, nth_error (w_views r) i = Some v -> (v_cost v < d - sum_costs (firstn i (w_views r)))%Q).
+Proof.
+  intros net fuel start d jump tp r. unfold walk_tr.
+  destruct (random_node_at net start tp) as [[n0 tp']|e]; [|discriminate].
+  apply walk_loop_accounting.
+Qed.
+
+Lemma jump_snaps : forall v rem c, stop_cell v rem true = Ok c ->
+  ((rem < v_cost v / 2)%Q -> view_front v = Ok c) /\
+  ((v_cost v / 2 <= rem)%Q -> view_back v = Ok c).
+Proof.
+  intros v rem c. unfold stop_cell. destruct (Qlt_bool rem (v_cost v / 2)) eqn:E; intro H; split; intro Hc.
+  - exact H.
+  - apply Qlt_bool_iff in E. exfalso. exact (Qlt_not_le _ _ E Hc).
+  - apply Qlt_bool_false in E. exfalso. exact (Qlt_not_le _ _ Hc E).
+  - exact H.
+Qed.
+
+Lemma no_jump_stops_by_cost : forall v rem c, stop_cell v rem false = Ok c ->
+  exists i, index_from_cost (v_seg v) rem = Ok i /\ nth_cell (v_cells v) i = Ok c.
+Proof.
+  intros v rem c. unfold stop_cell, view_cell_by_cost.
+  destruct (index_from_cost (v_seg v) rem) as [i|e]; cbn [bind]; [|discriminate].
+  intro H. exists i. split; [reflexivity | exact H].
+Qed.
+
+(* stated cost, or length-derived cost *)
+Lemma record_seg_cost : forall g hp cost prob xs,
+  (seg_cost (record_seg g true hp cost prob xs) == cost)%Q /\
+  seg_cost (record_seg g false hp cost prob xs) =
+    (inject_Z (Z.of_nat (List.length (merged_cells g xs)) - 1) * distance_per_cell g)%Q.
+Proof.
+  intros g hp cost prob xs. split.
+  - unfold seg_cost, has_total, record_seg. cbn [sg_total sg_cpc].
+    destruct (Qeq_bool cost 0) eqn:E; cbn [negb]; [|reflexivity].
+    apply Qeq_bool_iff in E. rewrite Qmult_0_r. symmetry. exact E.
+  - reflexivity.
+Qed.
+
+Lemma merged_cells_spec : forall g xs,
+  let m := dedup None (map (pt_cell g) xs) in
+  stutter m (map (pt_cell g) xs) /\ no_adj_dup m /\
+  merged_cells g xs = (match m with [c] => [c; c] | _ => m end).
+Proof.
+  intros g xs m. split; [exact (dedup_stutter (map (pt_cell g) xs) None)|].
+  split; [exact (proj1 (dedup_no_adj_dup (map (pt_cell g) xs) None))|].
+  unfold merged_cells. subst m. destruct (dedup None (map (pt_cell g) xs)) as [|a [|b t]]; reflexivity.
+Qed.
+
+Lemma load_first_record_of_pair : forall g fl lines ae net hc hp consumed outs,
+  load g fl lines ae = Ok net ->
+  stream_has_columns fl = Ok (hc, hp, consumed) ->
+  sequence (map (record_segment g hc hp) (if consumed then tl lines else lines)) = Ok outs ->
+  forall k, m_find cell_cmp k (nw_segs net) = m_find cell_cmp k (kept outs).
+Proof.
+  intros g fl lines ae net hc hp consumed outs Hload Hh Hs k.
+  apply load_spec in Hload. destruct Hload as [hc' [hp' [consumed' [outs' [Hh' [Hs' [_ [Hsegs _]]]]]]]].
+  rewrite Hh in Hh'. inversion Hh'. subst hc' hp' consumed'. rewrite Hs in Hs'. inversion Hs'. subst outs'.
+  rewrite Hsegs, emplace_all_find. reflexivity.
 Qed.
